@@ -9,6 +9,7 @@ import Mfi.Lemmas.FxL
 import Mfi.Lemmas.ResL
 import Mfi.Lemmas.BankL
 import Mfi.Lemmas.SkelL
+import Mfi.Lemmas.ConstL
 
 namespace Mfi.Props.C17
 open Mfi Mfi.Fx Mfi.Bank Mfi.Gen
@@ -280,5 +281,10 @@ open Mfi.Gen.Skel in
 theorem capacity_after_accrual :
     occursBefore deposit (isAccrue .bank) (· == .capacity) = true ∧
     occursBefore deposit (· == .capacity) isOp = true := by decide
+
+/-- the deposit-limit scaling of Drift banks uses the table: that table is exactly the powers of ten 10^0 .. 10^23 as I80F48 (regenerated from the real
+    constants on every run; the model computes its own powers of ten and is diffed against the real functions across
+    ALL 24 decimals) -/
+theorem scaling_table_is_powers_of_ten : Mfi.Gen.EXP_10_I80F48 = Mfi.Fx.POW10FX := Mfi.ConstL.exp10_table_exact
 
 end Mfi.Props.C17
